@@ -29,7 +29,10 @@ dirs = [d for d in dirs if os.path.exists(os.path.join(d, "patch.diff"))]
 
 def one(d):
     env = dict(os.environ, SWEEP_SUITE=suite)
-    p = subprocess.run([os.path.join(root, "tools", "sweep1.sh"), d, tier], capture_output=True, text=True, env=env)
+    try:
+        p = subprocess.run([os.path.join(root, "tools", "sweep1.sh"), d, tier], capture_output=True, text=True, env=env, timeout=int(os.environ.get("SWEEP_TIMEOUT", "2400")))
+    except subprocess.TimeoutExpired:
+        return d, {"name": os.path.basename(d), "error": "sweep timed out (the check did not finish)"}
     line = [l for l in p.stdout.splitlines() if l.startswith("{")]
     if not line:
         return d, {"name": os.path.basename(d), "error": "no result: " + p.stderr[-300:]}
@@ -42,7 +45,7 @@ with cf.ThreadPoolExecutor(jobs) as ex:
         mp = os.path.join(d, "meta.json")
         m = json.load(open(mp))
         if "error" in r:
-            print(f"{r['name']}: ERROR {r['error']}")
+            print(f"{r['name']}: ERROR {r['error']}", flush=True)
             m["caught_by"] = {"error": r["error"]}
             missed.append(r["name"])
         else:
